@@ -453,7 +453,8 @@ type natsLink struct {
 	subject       string
 	rec           *recorder
 	finished      chan struct{}
-	seen          int
+	requests      int
+	finishedSeen  int
 }
 
 func newNatsLink(proc frugal.FProcessor, pf *frugal.FProtocolFactory, rec *recorder) (*natsLink, error) {
@@ -498,14 +499,7 @@ func newNatsLink(proc frugal.FProcessor, pf *frugal.FProtocolFactory, rec *recor
 }
 func (l *natsLink) transport() frugal.FTransport { return l.tr }
 
-// the server signals when it has finished a frame (after publishing the reply, if any); then two
-// flushes push everything through the broker to the monitoring subscription
-func (l *natsLink) settle(std *frugal.FStandardClient) {
-	select {
-	case <-l.finished:
-	case <-time.After(5 * time.Second):
-	}
-	l.srv.Flush()
+func (l *natsLink) drain() {
 	l.mon.Flush()
 	for {
 		m, err := l.sub.NextMsg(2 * time.Millisecond)
@@ -513,11 +507,30 @@ func (l *natsLink) settle(std *frugal.FStandardClient) {
 			break
 		}
 		if m.Subject == l.subject {
+			l.requests++
 			l.rec.setRequest(m.Data)
 		} else if strings.HasPrefix(m.Subject, "_INBOX.") {
 			l.rec.addReply(m.Data)
 		}
 	}
+}
+
+// everything the client published has passed the broker after a flush of its connection; for every
+// request seen the server signals when it has finished the frame (after publishing the reply, if
+// any); then two more flushes push the reply through the broker to the monitoring subscription
+func (l *natsLink) settle(std *frugal.FStandardClient) {
+	l.cli.Flush()
+	l.drain()
+	for l.finishedSeen < l.requests {
+		select {
+		case <-l.finished:
+			l.finishedSeen++
+		case <-time.After(5 * time.Second):
+			l.finishedSeen = l.requests
+		}
+	}
+	l.srv.Flush()
+	l.drain()
 }
 func (l *natsLink) close() {
 	l.tr.Close()
@@ -717,6 +730,7 @@ func oneCall(reg *labdriver.Registry, rec *recorder, lk link, std *frugal.FStand
 		mem.tamper = c.Tamper
 	}
 	var rets []reflect.Value
+	t0 := time.Now()
 	func() {
 		defer func() {
 			if p := recover(); p != nil {
@@ -725,7 +739,9 @@ func oneCall(reg *labdriver.Registry, rec *recorder, lk link, std *frugal.FStand
 		}()
 		rets = m.Call(in)
 	}()
+	out["call_us"] = time.Since(t0).Microseconds()
 	lk.settle(std)
+	out["settled_us"] = time.Since(t0).Microseconds()
 	if rets != nil {
 		var cerr error
 		if e := rets[len(rets)-1]; !e.IsNil() {
